@@ -1113,6 +1113,13 @@ func (g *apiGen) call() string {
 	if readOnly {
 		k = 60 + r.intn(20)
 	}
+	if g.uniqField != "" && !readOnly && r.chance(1, 30) {
+		// shift all numeric keys under the unique index by one: accepted iff the
+		// FINAL key set is duplicate-free, whatever the order of processing
+		flt := bson.D{{Key: g.uniqField, Value: bson.D{{Key: pick(r, []string{"$gte", "$lte"}), Value: int32(r.intn(4) + 1)}}}}
+		upd := bson.D{{Key: "$inc", Value: bson.D{{Key: g.uniqField, Value: pick(r, []interface{}{int32(1), int32(-1)})}}}}
+		return "(update " + s + " " + hx(apiDbs[0]) + " " + hx(apiColls[0]) + " many " + enc(flt) + " " + enc(upd) + " F ())"
+	}
 	switch {
 	case k < 18:
 		return "(insertOne " + s + " " + t + " " + enc(g.doc(r.chance(4, 5))) + ")"
